@@ -17,8 +17,9 @@ RULE = ("operation sequences over {push k, pop, peek, decrease(i-th live item: b
         "non-trivial = at least one pop/peek after a decrease/remove or after a consolidation; distinct = distinct (kind, op list)")
 ASSUMPTIONS = ["pop/peek on an empty heap are not driven (the property speaks of live items)",
                "remove() and decrease_key() are only called with nodes that are live members, as their docstrings require",
+               "decrease_key() with a larger key is a refused request (ValueError): the queue must then behave as if it had not been made",
                "reference = sorted-list model in gv/props/c16.py"]
-MINIMUMS = {"quick": {"pops_or_peeks_with_a_root_of_degree_above_log2_n": 200, "invariant_evaluations": 100000, "pops_judged": 50000, "decrease_ops": 20000, "remove_ops": 20000, "helper_calls": 4000},
+MINIMUMS = {"quick": {"refused_key_increases": 3000, "pops_or_peeks_with_a_root_of_degree_above_log2_n": 200, "invariant_evaluations": 100000, "pops_judged": 50000, "decrease_ops": 20000, "remove_ops": 20000, "helper_calls": 4000},
             "thorough": {"pops_or_peeks_with_a_root_of_degree_above_log2_n": 5000, "invariant_evaluations": 2000000, "pops_judged": 1000000, "decrease_ops": 400000, "remove_ops": 400000}}
 
 KINDS = ["min-keyfn", "min-plain", "max", "max-keyfn"]
@@ -238,6 +239,9 @@ def gen_cases(spec, ctx):
                 live -= 1
             elif x < 0.58:
                 ops.append(["peek"])
+            elif x < 0.62 and not kind.startswith("max"):
+                # an attempt to *raise* a key: decrease_key() refuses it (ValueError); the queue must be what it was before
+                ops.append(["inc", r.randrange(live), r.choice([1, 5, 1000])])
             elif x < 0.8 and not kind.startswith("max"):
                 ops.append(["dec", r.randrange(live), r.choice(["by1", "below", "tomin", "same"])])
             else:
@@ -345,6 +349,23 @@ def run_ops(kind, ops, ctx=None):
                 ctx.count("decrease_ops")
                 if handles[u].parent is not None:
                     ctx.count("decrease_on_inner_node_kept_in_place")
+        elif name == "inc":
+            live = sorted(model)
+            if not live or ismax:
+                continue
+            u = live[op[1] % len(live)]
+            old = model[u]
+            new = old + op[2] if keyfn else (old[0] + op[2], old[1])
+            try:
+                heap.decrease_key(handles[u], new)
+                accepted = True
+            except ValueError:
+                accepted = False
+            if ctx is not None:
+                ctx.count("refused_key_increases" if not accepted else "key_increases_accepted_by_the_queue")
+            if accepted:
+                model[u] = new          # (the queue took it: follow it)
+            dirty = True
         elif name in ("rem", "thin"):
             live = sorted(model)
             if not live:
